@@ -94,6 +94,8 @@ def _registrations(m, call):
                             for p_, a_ in zip(params, c.args):
                                 if isinstance(a_, ast.Name):
                                     idmap[a_.id] = p_
+                                elif isinstance(a_, ast.Call) and dotted(a_.func) == "uuid.uuid4":
+                                    idmap["$uuid4"] = p_          # the id is drawn right in the argument list
                             for k in c.keywords:
                                 if isinstance(k.value, ast.Name) and k.arg:
                                     idmap[k.value.id] = k.arg
@@ -403,9 +405,11 @@ def check(ctx):
     # ---- R5
     ctx.instance("C14-R5", call.fq)
     ids = [n for n in ast.walk(call.node) if isinstance(n, ast.Assign) and isinstance(n.value, ast.Call) and dotted(n.value.func) == "uuid.uuid4" and isinstance(n.targets[0], ast.Name)]
-    ctx.ob("C14-R5", call.fq, "the message id is drawn by uuid.uuid4() in this activation (one site)", len(ids) == 1, node=call.node, construct="fresh id per call")
-    if len(ids) == 1:
-        idn = ids[0].targets[0].id
+    direct = [c for c in calls_in(call.node) if dotted(c.func) == "uuid.uuid4" and isinstance(getattr(c, "_parent", None), ast.Call) and c in c._parent.args]
+    one_site = (len(ids) == 1 and not direct) or (not ids and len(direct) == 1)
+    ctx.ob("C14-R5", call.fq, "the message id is drawn by uuid.uuid4() in this activation (one site)", one_site, node=call.node, construct="fresh id per call")
+    if one_site:
+        idn = ids[0].targets[0].id if ids else "$uuid4"
         regs = _registrations(m, call)
         ctx.ob("C14-R5", call.fq, "exactly one registration in the pending table", len(regs) == 1, node=call.node, construct="one registration per call")
         for r, co, idmap in regs:
